@@ -503,15 +503,39 @@ class Interp:
                 and all(isinstance(x, ast.Name) for x in st.target.elts) and st.body and not st.orelse):
             # each body statement is `[if <filters>:] D[k] = f(e)` into its own fresh dict: independent comprehensions
             plans = []
-            for inner in st.body:
-                if self._guard_only([inner]):
+
+            def _flatten(node_: ast.stmt, conds_: List[ast.AST]) -> Optional[List[Tuple[ast.stmt, List[ast.AST]]]]:
+                """`if a: S1 elif b: S2 else: S3` -> (S1, [a]), (S2, [not a, b]), (S3, [not a, not b]); one statement per arm"""
+                if isinstance(node_, ast.If) and len(node_.body) == 1 and len(node_.orelse) <= 1:
+                    first = _flatten(node_.body[0], conds_ + [node_.test])
+                    if first is None:
+                        return None
+                    if not node_.orelse:
+                        return first
+                    inv = {ast.GtE: ast.Lt, ast.Lt: ast.GtE, ast.Gt: ast.LtE, ast.LtE: ast.Gt, ast.Eq: ast.NotEq, ast.NotEq: ast.Eq}
+                    t_ = node_.test
+                    if isinstance(t_, ast.Compare) and len(t_.ops) == 1 and type(t_.ops[0]) in inv:
+                        neg: ast.AST = ast.copy_location(ast.Compare(left=t_.left, ops=[inv[type(t_.ops[0])]()], comparators=list(t_.comparators)), t_)
+                    else:
+                        neg = ast.copy_location(ast.UnaryOp(op=ast.Not(), operand=t_), t_)
+                    rest = _flatten(node_.orelse[0], conds_ + [neg])
+                    return None if rest is None else first + rest
+                if isinstance(node_, ast.If):
+                    return None
+                return [(node_, conds_)]
+            body_items: List[Tuple[ast.stmt, List[ast.AST]]] = []
+            flat_ok = True
+            for inner0 in st.body:
+                if self._guard_only([inner0]):
                     # `if <element is not exact>: raise` fused into the copy loop: it can raise but computes nothing
-                    self.events.append(Event("guard-loop", inner, {"func": fi.qual}))
+                    self.events.append(Event("guard-loop", inner0, {"func": fi.qual}))
                     continue
-                conds: List[ast.AST] = []
-                while isinstance(inner, ast.If) and not inner.orelse and len(inner.body) == 1:
-                    conds.append(inner.test)
-                    inner = inner.body[0]
+                fl = _flatten(inner0, [])
+                if fl is None:
+                    flat_ok = False
+                    break
+                body_items += fl
+            for inner, conds in (body_items if flat_ok else []):
                 if not (isinstance(inner, ast.Assign) and len(inner.targets) == 1 and isinstance(inner.targets[0], ast.Subscript)
                         and isinstance(inner.targets[0].value, ast.Name) and isinstance(inner.targets[0].slice, ast.Name)):
                     plans = []
